@@ -2,8 +2,10 @@
 """run ./check <P> --tier quick against every seed in /tmp/seed-<p>-out/<i>/ (applied to the scratch worktree /tmp/seed-<p>),
 copy the seed to /verif/seeded/<P>-<i>/ and record in meta.json what the check reported."""
 import json, os, re, shutil, subprocess, sys
-P = sys.argv[1]; p = P.lower()
-wt = "/tmp/seed-%s" % p; out = "/tmp/seed-%s-out" % p
+P = sys.argv[1]; p = P.lower(); rnd = sys.argv[2] if len(sys.argv) > 2 else ""
+wt = ("/var/tmp/seed%s-%s" % (rnd, p)) if rnd else "/tmp/seed-%s" % p; out = wt + "-out"
+import glob
+base = len(glob.glob("/verif/seeded/%s-*" % P)) if rnd else 0
 for i in sorted(d for d in os.listdir(out) if d.isdigit()):
     sd = os.path.join(out, i)
     if not os.path.exists(os.path.join(sd, "patch.diff")):
@@ -24,7 +26,7 @@ for i in sorted(d for d in os.listdir(out) if d.isdigit()):
     verdict = "MISSED (check printed OK)" if any(l.startswith("OK ") for l in lines) and not any(l.startswith("VIOLATION") for l in lines) else \
         ("caught with concrete failing input" if any("no-failing-input-found" not in l for l in lines if l.startswith("VIOLATION")) else
          "caught as broken proof/correspondence, no concrete failing input found in the quick tier") if lines else "check produced no verdict: " + r.stdout[-300:] + r.stderr[-300:]
-    dst = "/verif/seeded/%s-%s" % (P, i)
+    dst = "/verif/seeded/%s-%d" % (P, base + int(i))
     os.makedirs(dst, exist_ok=True)
     for f in os.listdir(sd):
         if os.path.isfile(os.path.join(sd, f)) and os.path.getsize(os.path.join(sd, f)) < 400000:
@@ -34,4 +36,4 @@ for i in sorted(d for d in os.listdir(out) if d.isdigit()):
     meta["check_result"] = {"verdict": verdict, "signatures": sigs[:8], "lines": [l[:200] for l in lines][:6],
                             "command": "git apply patch.diff in a scratch worktree; VERIF_REPO=<worktree> ./check %s --tier quick" % P}
     json.dump(meta, open(mp, "w"), indent=1)
-    print(P, i, verdict, sigs[:4])
+    print(os.path.basename(dst), verdict, sigs[:4])
